@@ -21,7 +21,7 @@ OBL = [("Qsx.Props.C11", t) for t in ["Qsx.Props.C11.scan_total", "Qsx.Props.C11
                                      "Qsx.Props.C11.lplex_init_safe", "Qsx.Props.C11.lplex_safe", "Qsx.Props.C11.lplex_scan_loop_safe",
                                      "Qsx.Props.C11.has_colon_before_fix_reads_behind_terminator", "Qsx.Props.C11.lplex_progress",
                                      "Qsx.Props.C11.lplex_skip_monotone", "Qsx.Props.C11.mpslex_next_line", "Qsx.Props.C11.mpslex_safe",
-                                     "Qsx.Props.C11.mpslex_set_end_of_line"]]
+                                     "Qsx.Props.C11.mpslex_set_end_of_line", "Qsx.Props.C11.lex_field_progress"]]
 
 
 def mutate_tokens(rng, text, fmt):
